@@ -528,6 +528,13 @@ func c05(c *core.Ctx) {
 						return
 					}
 					code, isCtor := core.StatusCtorCode(call)
+					viaHelper := false
+					if !isCtor {
+						// a check helper of the module that answers with an error it constructs (checkSize(n, max) error)
+						if h := call.Call.StaticCallee(); h != nil && h.Blocks != nil && strings.HasPrefix(core.InfoOf(&call.Call).Pkg, core.ModulePath) && core.RecvName(h) == "" && mayMakeStatusError(h, 0) {
+							isCtor, viaHelper, code = true, true, -1
+						}
+					}
 					if !isCtor || code == 0 {
 						return
 					}
@@ -560,9 +567,22 @@ func c05(c *core.Ctx) {
 					okAll := true
 					reach := core.Walk(core.After(call), isCancel, alreadyOver)
 					for _, r := range core.Returns(f) {
-						if reach[r] {
-							okAll = false
+						if !reach[r] {
+							continue
 						}
+						if viaHelper {
+							// only the returns that hand back the helper's error
+							hands := false
+							for _, res := range r.Results {
+								if core.IsErrorType(res.Type()) && core.OriginIs(res, func(o ssa.Value) bool { return core.Strip(o) == ssa.Value(call) }) {
+									hands = true
+								}
+							}
+							if !hands {
+								continue
+							}
+						}
+						okAll = false
 					}
 					c.Check(okAll, fmt.Sprintf("%s:own-failure#%d:cancels-the-call", core.FuncName(f), n), call.Pos(), "every path from the constructed error to a return passes the call's CancelFunc", "the receive path constructs a terminal error (code "+fmt.Sprint(code)+") and returns without cancelling the call: the peer's pending frame hand-over is never taken, so a library goroutine (the HTTP reply reader / the in-process handler goroutine) stays blocked after the call is over for the caller")
 				})
@@ -2057,4 +2077,31 @@ func closerChain(fn *ssa.Function) map[*ssa.Function]bool {
 	}
 	chain[root] = true
 	return chain
+}
+
+// mayMakeStatusError: some return of the module function fn is a status error
+// it constructs itself.
+func mayMakeStatusError(fn *ssa.Function, depth int) bool {
+	if fn == nil || fn.Blocks == nil || depth > 2 || fn.Signature.Results().Len() != 1 || !core.IsErrorType(fn.Signature.Results().At(0).Type()) {
+		return false
+	}
+	// a function that is handed an error translates or wraps it; it does not pass a verdict of its own
+	for _, pp := range fn.Params {
+		if core.IsErrorType(pp.Type()) || core.TypeStr(pp.Type()) == "context.Context" {
+			return false
+		}
+	}
+	for _, r := range core.Returns(fn) {
+		for _, l := range core.ErrLeaves(r.Results[0], r) {
+			if call, ok := core.Strip(l.V).(*ssa.Call); ok {
+				if code, isCtor := core.StatusCtorCode(call); isCtor && code != 0 {
+					return true
+				}
+				if mayMakeStatusError(call.Call.StaticCallee(), depth+1) {
+					return true
+				}
+			}
+		}
+	}
+	return false
 }
